@@ -149,6 +149,14 @@ func Run(t *testing.T) {
 							break
 						}
 					}
+					if explained == "" && v == nil {
+						// the whole document is null and the schema is a nullable object: there is nothing
+						// else in the instance that could be the cause (and for schemas without any non-null
+						// instance, e.g. minProperties 3 with no member allowed, no counterfactual exists)
+						if rs := meta.Doc.Components.Resolve(schema); rs != nil && rs.Nullable && rs.Type == "object" {
+							explained = "null-for-nullable-object"
+						}
+					}
 					if explained != "" {
 						u.Report(vk.F(explained, "schema %s: instance %s is VALID by both oracles (%s) but the server answered %d, handler invoked=%v: %s",
 							mustJSON(schema), sent, c.Desc, status, called, head(respBody, 240)), rep)
